@@ -1552,6 +1552,7 @@ pub fn plan(property: &str, tier: Tier) -> Option<Plan>
             {
                 let mut c = Config::base(&format!("C18/stale/N{n}"));
                 c.actors = vec![Variant::Plain, Variant::Plain];
+                c.ewr = Some(Variant::Plain);
                 c.n_ents = 2;
                 c.setup = vec![
                     Op::Insert(Comp::A, 0, 0),
@@ -1574,8 +1575,11 @@ pub fn plan(property: &str, tier: Tier) -> Option<Plan>
                     v.push(Op::Mutate(Comp::A, 0, How::Trigger));
                     v.push(Op::RemoveComp(Comp::A, 0));
                     v.push(Op::Register(1, Bundle::two(Trig::EntityEvent(Ev::B, 0), Trig::Despawn(0)), Mode::Persistent));
-                    if i.n_actors < 4 { v.push(Op::RegisterNew(Variant::Plain, Bundle::two(Trig::EntityMutation(Comp::A, 0), Trig::Despawn(0)), Mode::Cleanup)); }
+                    if i.n_actors < 5 { v.push(Op::RegisterNew(Variant::Plain, Bundle::two(Trig::EntityMutation(Comp::A, 0), Trig::Despawn(0)), Mode::Cleanup)); }
                     for k in i.ready_tokens() { v.push(Op::Revoke(k)); }
+                    // attaching / detaching a possibly stale entity to / from an entity world reactor
+                    v.push(Op::EwrAdd(0));
+                    v.push(Op::EwrRemove(0, 2));
                     v
                 });
                 c.script = alpha.clone();
